@@ -389,6 +389,14 @@ func genRules(rng *rand.Rand) c13Rules {
 
 func pickCurr(rng *rand.Rand, lastSec int64) int64 {
 	const maxSec = int64(^uint64(0)>>1) / 1000
+	if rng.IntN(12) == 0 {
+		// a clock slightly (or far) behind the stored second (skew within the future bound is
+		// legal): the elapsed time wraps around as an unsigned number, i.e. is >= 2^63
+		back := []int64{1, 1, 2, 5, 9, 10, 11, 1000, 1 << 40, 1 << 61}[rng.IntN(10)]
+		if lastSec-back >= 0 {
+			return (lastSec - back) * 1000
+		}
+	}
 	e := c13Elapsed[rng.IntN(len(c13Elapsed))]
 	if rng.IntN(8) == 0 {
 		e = rng.Uint64() >> uint(12+rng.IntN(50))
@@ -408,7 +416,7 @@ func TestC13(t *testing.T) {
 	r.Rule("(1) single steps: arbitrary encoded parent fee state (boundary-biased 64-bit prices, window slots, last consumption, stored second) x rules (target, denominator >= 1, minimum) x elapsed seconds (0..9, 10, 11.., idle for many windows); the real Manager.ComputeNext successor (price and window of all 5 dimensions) is compared with the rule of the statement evaluated in math/big; (2) monotonicity: pairs of parent states differing only in usage (last consumption / one in-window slot raised) must not yield a lower price for the higher usage (judged on real outputs only); (3) block sequences from the genesis state: ComputeNext -> Consume random units -> Bytes -> NewManager, model tracked independently over 5..40 blocks; every successor is re-decoded from its bytes. A judged dimension is non-trivial when usage != target; distinct = distinct (regime flags: product beyond 64 bits / saturations / clamps / elapsed class, bit widths of price, total, target, denominator).")
 	r.Assume(
 		"target = 0 or change denominator = 0 divide by zero in the rule itself: treated as invalid configuration, not generated",
-		"elapsed time is non-negative (block timestamps are monotone, C11) and timestamps are non-negative",
+		"timestamps are non-negative; a current time before the stored second is evaluated as the implementation documents it: the unsigned difference (>= 2^63 seconds, i.e. every window slot has rolled out)",
 		"the statement is silent about idle periods longer than one window; the implementation's documented catch-up rule (decrease multiplied by floor(elapsed/window)) is taken as the rule and evaluated exactly",
 		"the arbitrary input states of part (1) are laid out as documented in internal/fees/manager.go; what the manager decodes from them is checked through its accessors",
 	)
